@@ -300,6 +300,7 @@ func main() {
 	lean := flag.String("lean", "", "directory of Gen/*.lean")
 	facts := flag.String("facts", "", "directory for facts_<id>.json")
 	prop := flag.String("prop", "all", "property id or all")
+	shapeProps := flag.String("shape-props", "", "properties.jsonl: write the declaration shape of each property's anchor files to <facts>/shape_<id>.txt")
 	flag.Parse()
 	var ids []string
 	if *prop == "all" {
@@ -322,6 +323,13 @@ func main() {
 		}
 	}
 	rc := 0
+	if *shapeProps != "" && *facts != "" {
+		for _, id := range strings.Split(*prop, ",") {
+			if err := writeShape(*repo, *shapeProps, id, *facts); err != nil {
+				fmt.Printf("PROBLEM %s: shape: %v\n", id, err)
+			}
+		}
+	}
 	for _, id := range ids {
 		ex, ok := extractors[id]
 		if !ok {
